@@ -146,6 +146,44 @@ theorem dropped_unread_closes (rs : RS) (as : List HAct) (hun : rs.unread = true
     droppedUnread_sticky as _ h0
   unfold HS.keep; simp [h1]
 
+/-! ### chunked streamed bodies: nothing is taken out of the connection after the body's end or after a framing error -/
+
+theorem cs_absorbing (os : List COutcome) : ∀ s : ChunkSt, s.phase ≠ .reading → s.run os = s := by
+  induction os with
+  | nil => intro s _; rfl
+  | cons o rest ih =>
+    intro s h
+    have : s.read o = s := by
+      unfold ChunkSt.read
+      cases hp : s.phase <;> simp_all
+    show (s.read o).run rest = s
+    rw [this]; exact ih s h
+
+/-- C02 (chunked): whatever the handler reads after the stream has ended — or after it has failed on a malformed
+    chunk — no further byte leaves the connection, so the bytes of the next request stay where they are -/
+theorem chunked_reads_after_end_consume_nothing (before after : List COutcome) (h : (ChunkSt.run {} before).phase ≠ .reading) :
+    (ChunkSt.run {} (before ++ after)).consumed = (ChunkSt.run {} before).consumed := by
+  have hsplit : ∀ (l1 l2 : List COutcome) (s : ChunkSt), s.run (l1 ++ l2) = (s.run l1).run l2 := by
+    intro l1
+    induction l1 with
+    | nil => intro l2 s; rfl
+    | cons o r ih => intro l2 s; exact ih l2 (s.read o)
+  rw [hsplit, cs_absorbing after _ h]
+
+/-- a stream that failed on a malformed chunk never counts as read: the connection is closed after the response -/
+theorem malformed_chunk_stays_unread (before after : List COutcome) (h : (ChunkSt.run {} before).phase = .failed) :
+    (ChunkSt.run {} (before ++ after)).unread = true := by
+  have hsplit : ∀ (l1 l2 : List COutcome) (s : ChunkSt), s.run (l1 ++ l2) = (s.run l1).run l2 := by
+    intro l1
+    induction l1 with
+    | nil => intro l2 s; rfl
+    | cons o r ih => intro l2 s; exact ih l2 (s.read o)
+  rw [hsplit, cs_absorbing after _ (by rw [h]; simp)]
+  simp [ChunkSt.unread, h]
+
+example : (ChunkSt.run {} [.data 3 5, .last 5, .data 3 4, .last 5]).consumed = 13 := by decide
+example : (ChunkSt.run {} [.data 3 1, .malformed 2, .last 5]).unread = true := by decide
+
 /-- a rejected `Expect: 100-continue` never calls the handler and always closes the connection -/
 theorem rejected_expectation_closes (o : ExpectOutcome) (h : (expectDecision o).1 = false) : (expectDecision o).2 = true := by
   cases o <;> simp_all [expectDecision]
